@@ -2,6 +2,7 @@
 run through the L1 worker (real libawkward built from /repo), and compared with the
 specification's expectation under the verdict rules of DESIGN.md section 4."""
 import hashlib
+import copy
 import json
 import math
 import os
@@ -731,8 +732,22 @@ def steps_forth(case, pick):
             "inputs": {"data": case["input"]}}
     src = forth_program(case)
     main = case["main"]
-    k = pick(list(range(len(main) + 1)))
-    paused = forth_program(case, main[:k] + [{"k": "w", "w": "pause"}] + main[k:])
+    # a pause at any point of the program: between top-level instructions (two of three cases) or anywhere inside nested
+    # bodies -- the end of a loop body, a branch of an if, the condition of a while loop
+    paused_main = copy.deepcopy(main)
+    seqs = [paused_main]
+
+    def walk(seq):
+        for h in seq:
+            for key in ("a", "b", "body", "c"):
+                if isinstance(h.get(key), list):
+                    seqs.append(h[key])
+                    walk(h[key])
+    walk(paused_main)
+    target = pick([paused_main, paused_main] + seqs)
+    k = pick(list(range(len(target) + 1)))
+    target.insert(k, {"k": "w", "w": "pause"})
+    paused = forth_program(case, paused_main)
     bits = pick([32, 64])
     steps = [dict(base, source=src, bits=bits, schedule=["run"], rerun_decompiled=1),
              dict(base, source=src, bits=96 - bits, schedule=["stepall"], out_initial=1, out_resize_num=11, out_resize_den=10),
